@@ -73,6 +73,11 @@ class C14(Prop):
                                      tuple(rng.choice(['a-b-c', 'a,b-c,d', 'x', '', 'a1b2c3', 'q-', 'AxaXA']) for _ in range(rng.choice([1, 3]))),
                                      rng.choice([0, 0, 1, 2]), rng.choice([0, 0, 2]), rng.random() < 0.4))
             yield Case('roundtrip', ('recast_melt', key, t, rng.choice([None, 1, 2])))
+            # unpackdict: records with different key sets, cells that are not dicts, short rows
+            recs = tuple(rng.choice([(('p', 1), ('q', 2)), (('p', 3),), (('q', None), ('r', 'x')), (), None, 'nodict'])
+                         for _ in range(rng.choice([1, 3, 4])))
+            yield Case('roundtrip', ('unpackdict_cells', recs, rng.choice([None, ('p', 'q'), ('q', 'zz', 'p'), ('r',)]),
+                                     rng.choice([None, 'M']), rng.random() < 0.4))
             yield Case('reshape', ('transpose', t))
             yield Case('roundtrip', ('transpose', t))
             yield Case('reshape', ('flatten', t))
@@ -174,7 +179,23 @@ class C14(Prop):
             if len(t) == 1:
                 # no data rows: no variables can be discovered, only the key fields remain
                 return codec.t_bool([tuple(r) for r in got] == [tuple(keyl)])
-            return codec.t_bool([tuple(r) for r in got] == [tuple(r) for r in want])
+            ok = [tuple(r) for r in got] == [tuple(r) for r in want]
+            # the key left to recast to infer (every field but the variable and value fields), also when key field names
+            # look like pieces of the words 'variable' / 'value'
+            inferred = list(etl.recast(etl.melt(L(t), key=key)))
+            ok = ok and [tuple(r) for r in inferred] == [tuple(r) for r in want]
+            knames = ['a', 'var', 'ble', 'val', 'e', 'riab']
+            vnames = ['X', 'Y', 'Z', 'W', 'V', 'U']
+            ren = {}
+            for f in t[0]:
+                ren[f] = (knames if f in keyl else vnames)[len([g for g in ren if (g in keyl) == (f in keyl)])]
+            t2 = [[ren[f] for f in t[0]]] + [list(r) for r in t[1:]]
+            key2 = tuple(ren[k] for k in keyl) if isinstance(key, tuple) else ren[key]
+            vars2 = sorted(ren[f] for f in t[0] if f not in keyl)
+            want2 = list(etl.cut(etl.sort(t2, key=key2, buffersize=bs), *([ren[k] for k in keyl] + vars2)))
+            inferred2 = list(etl.recast(etl.melt(t2, key=key2)))
+            ok = ok and [tuple(r) for r in inferred2] == [tuple(r) for r in want2]
+            return codec.t_bool(ok)
         if kind == 'melt_cells':
             # melt emits, per input row in order, one row per variable: (key cells..., variable name, that cell)
             _, key, t = arg
@@ -204,6 +225,18 @@ class C14(Prop):
                 m = re.search(pat, v)
                 groups = tuple(m.groups()) if m else tuple(['-'] * ngroups)
                 want.append(((i, v) if include else (i,)) + groups)
+            return codec.t_bool(got == want)
+        if kind == 'unpackdict_cells':
+            _, recs, keys, missing, include = arg
+            src = [['id', 'd', 'z']] + [[i, (dict(r) if isinstance(r, tuple) else r), 'z%d' % i] for i, r in enumerate(recs)]
+            kw = {} if keys is None else {'keys': list(keys)}
+            got = [tuple(r) for r in etl.unpackdict(src, 'd', includeoriginal=include, missing=missing, **kw)]
+            ks = list(keys) if keys is not None else sorted(set(k for r in recs if isinstance(r, tuple) for k, _ in r))
+            want = [(('id', 'd', 'z') if include else ('id', 'z')) + tuple(ks)]
+            for row in src[1:]:
+                d = row[1]
+                cells = tuple((d[k] if isinstance(d, dict) and k in d else missing) for k in ks)
+                want.append((tuple(row) if include else (row[0], row[2])) + cells)
             return codec.t_bool(got == want)
         if kind == 'split_re':
             import re
